@@ -115,6 +115,9 @@ Section Mono.
     - (* XPipe *) apply apply_x_mono.
     - (* XAssign *) mstep use_rec. auto.
     - (* XSeq *) mstep use_rec. mstep use_rec. auto.
+    - (* XCon *) destruct arg; auto. mstep use_rec. auto.
+    - (* XMatch *)
+      mstep use_rec. mstep ltac:(fun E => idtac). mstep ltac:(fun E => idtac). mstep use_rec. auto.
   Qed.
 End Mono.
 
